@@ -257,6 +257,7 @@ pub fn child_main(start: usize, end: usize, exec: Arc<dyn Fn(usize) -> String + 
         // progress for 20x the limit of wall time (blocked).
         let mut watch: Option<(u64, u64)> = None; // (case, cpu ticks when first seen late)
         let mut warmed_seen = alloc::WARMED.load(Ordering::SeqCst);
+        let mut wall_reset = 0u64;
         loop {
             if sh.finished.load(Ordering::SeqCst) {
                 let _ = handle.join();
@@ -279,6 +280,7 @@ pub fn child_main(start: usize, end: usize, exec: Arc<dyn Fn(usize) -> String + 
             }
             let s = sh.started.load(Ordering::SeqCst);
             if s != 0 {
+                let s = s.max(wall_reset);
                 let now = t0.elapsed().as_millis() as u64 + 1;
                 let cur = sh.cur.load(Ordering::SeqCst);
                 if now > s + 500 {
@@ -287,7 +289,7 @@ pub fn child_main(start: usize, end: usize, exec: Arc<dyn Fn(usize) -> String + 
                     if alloc::WARMING.load(Ordering::SeqCst) != 0 || warmed != warmed_seen {
                         warmed_seen = warmed;
                         watch = None;
-                        sh.started.store(now, Ordering::SeqCst);
+                        wall_reset = now;
                         std::thread::sleep(Duration::from_millis(5));
                         continue;
                     }
